@@ -79,19 +79,25 @@ func (s *Sched) pktFault() int {
 
 // Next returns the next event.
 func (s *Sched) Next() *Event {
-	if len(s.queue) > 0 {
+	w, r := s.W, s.R
+	h := w.Height()
+	bandDue := w.Band != nil && (h+1)%20 == 0 && w.Band.LastPeriod != (h+1)/20
+	if len(s.queue) > 0 && !(bandDue && s.queue[0].Kind == "block") {
 		ev := s.queue[0]
 		s.queue = s.queue[1:]
 		return ev
 	}
-	w, r := s.W, s.R
-	h := w.Height()
-	if w.Band != nil && (h+1)%20 == 0 && w.Band.LastPeriod != (h+1)/20 {
+	if bandDue {
 		evs := w.Band.RelayerEvents(w, r, s.pktFault(), w.Cfg.K("path_mode"), w.Cfg.K("vol"))
 		if len(evs) > 0 {
-			s.queue = append(s.queue, evs[1:]...)
+			s.queue = append(append([]*Event{}, evs[1:]...), s.queue...)
 			return evs[0]
 		}
+	}
+	if len(s.queue) > 0 {
+		ev := s.queue[0]
+		s.queue = s.queue[1:]
+		return ev
 	}
 	if r.Intn(1000) < s.Sc.PBlock {
 		n := int64(1)
@@ -112,6 +118,11 @@ func (s *Sched) Next() *Event {
 				n = dist
 			}
 		}
+		// stop right before the swap-fee conversion boundary (height % 150 == 0), so that hooks at that boundary are
+		// always preceded by an observation point
+		if d := 149 - h%150; d > 0 && n > d {
+			n = d
+		}
 		ev := &Event{Kind: "block", Tag: "block", GapS: s.gap(), N: int(n)}
 		if ev.GapS > 3600 {
 			ev.Fault = "clock.gap"
@@ -126,6 +137,10 @@ func (s *Sched) Next() *Event {
 		}
 		if ev.Tag == "" {
 			ev.Tag = g.Name
+		}
+		if len(ev.then) > 0 {
+			s.queue = append(s.queue, ev.then...)
+			ev.then = nil
 		}
 		if ev.Kind == "tx" {
 			oog := int(w.Cfg.K("oog"))
